@@ -69,20 +69,63 @@ def run(ctx, rep):
     uses_attr = attr_p in vt.show(t['tail']) and not attr_p.startswith('_')
     alltxt = json.dumps(t['tail']) + json.dumps(t['calls'])
     rep.check(f'"root": "{attr_p}"' not in alltxt, 'Y2', 'macro-arguments-unused', 'attribute arguments are never read', 'the macro reads its argument stream: behaviour may now depend on the typeshare(...) arguments', tsite)
-    tail = t['tail']
-    while isinstance(tail, dict) and tail.get('k') == 'var':
-        tail = tail['v']
-    ok = isinstance(tail, dict) and tail.get('k') == 'cond' and isinstance(tail['c'], dict) and tail['c'].get('k') == 'iflet' and 'Ok' in ''.join(tail['c'].get('variants', []))
-    if ok:
-        sc = vt.show(tail['c']['scrut']).replace(' ', '')
-        ok = 'DeriveInput' in sc and f'{item_p}.clone()' in sc
-        els = vt.strip(tail['e'])
-        ok_else = isinstance(els, dict) and els.get('k') == 'atom' and els.get('root') == item_p and not els.get('path')
-        rep.check(ok_else, 'Y2', 'non-derive-input:untouched', 'unparsable as DeriveInput ⇒ input returned unchanged', f"for items that are not struct/enum/union (type aliases, consts, fns) the macro returns `{vt.show(tail['e'])[:60]}` instead of the untouched input", tsite)
-        then = vt.show(tail['t']).replace(' ', '')
-        ok_then = 'to_token_stream()' in then and 'TokenStream::from' in then
-        rep.check(ok_then, 'Y2', 'derive-input:same-item', 'output = token stream of the parsed item', f'the macro emits `{then[:80]}` for struct/enum/union inputs', tsite)
-    rep.check(ok, 'Y2', 'parse-on-a-clone', 'parse::<DeriveInput>(item.clone())', 'the macro no longer parses a clone of its input as DeriveInput with a pass-through fallback', tsite)
+    # Y2 as an exit inventory: every way out of the macro either hands back the untouched input stream *because the input
+    # does not parse as a DeriveInput* (the only condition allowed), or emits the token stream of the parsed-and-stripped item.
+    def is_parse(x):
+        x = vt.unvar(x)
+        return isinstance(x, dict) and x.get('k') == 'call' and 'DeriveInput' in vt.show(x).replace(' ', '') and str(x.get('f', '')).split('::')[0].startswith('parse') and f'{item_p}.clone()' in vt.show(x).replace(' ', '')
+
+    def is_raw_item(x):
+        x = vt.strip(x)
+        return isinstance(x, dict) and x.get('k') == 'atom' and x.get('root') == item_p and not x.get('path')
+
+    def parse_failed_frame(fr):
+        """guard frame that holds exactly when parse::<DeriveInput>(item.clone()) is not Ok"""
+        c = fr.get('c')
+        if fr.get('k') != 'if' or not isinstance(c, dict):
+            return False
+        if c.get('k') == 'iflet' and is_parse(c.get('scrut')):
+            ok_pat = 'Ok' in ''.join(c.get('variants', []))
+            return (ok_pat and bool(fr.get('neg'))) or ('Err' in ''.join(c.get('variants', [])) and not fr.get('neg'))
+        cc = vt.unvar(c)
+        if isinstance(cc, dict) and cc.get('k') == 'call' and cc.get('f') in ('is_err', 'is_ok') and is_parse(cc.get('recv')):
+            return (cc['f'] == 'is_err') != bool(fr.get('neg'))
+        return False
+
+    exits = []   # (value, [guard frames], line)
+    for r in t.get('returns', []):
+        exits.append((r.get('v'), [fr for fr in r.get('guard', []) if fr.get('k') in ('if', 'arm')], r.get('line')))
+
+    def leaves(v, frames):
+        v0 = v
+        while isinstance(v, dict) and v.get('k') == 'var':
+            v = v['v']
+        if isinstance(v, dict) and v.get('k') == 'cond':
+            leaves(v.get('t'), frames + [{'k': 'if', 'c': v.get('c'), 'neg': False}])
+            leaves(v.get('e'), frames + [{'k': 'if', 'c': v.get('c'), 'neg': True}])
+        elif isinstance(v, dict) and v.get('k') == 'match' and v.get('arms'):
+            for a_ in v['arms']:
+                pv = ''.join(a_.get('variants', []))
+                leaves(a_.get('v'), frames + [{'k': 'if', 'c': {'k': 'iflet', 'scrut': v.get('scrut'), 'variants': a_.get('variants', [])}, 'neg': False}])
+        elif isinstance(v, dict) and v.get('k') == 'never':
+            return
+        else:
+            exits.append((v0, frames, t['line']))
+    leaves(t['tail'], [])
+    saw_parse = any(is_parse(x) for x in vt.walk(t['tail'])) or any(is_parse(x) for l_ in t.get('lets', []) for x in vt.walk(l_.get('v')))
+    rep.check(saw_parse, 'Y2', 'parse-on-a-clone', 'parse::<DeriveInput>(item.clone())', 'the macro no longer parses a clone of its input as DeriveInput', tsite)
+    raw, emitted, other = [], [], []
+    for v, frames, line in exits:
+        if is_raw_item(v):
+            raw.append((v, frames, line))
+        elif 'to_token_stream()' in vt.show(v).replace(' ', ''):
+            emitted.append((v, frames, line))
+        else:
+            other.append((v, frames, line))
+    bad_raw = [(v, fr, ln) for v, fr, ln in raw if not (len(fr) == 1 and parse_failed_frame(fr[0]))]
+    rep.check(bool(raw) and not bad_raw, 'Y2', 'non-derive-input:untouched', 'input returned unchanged exactly when it does not parse as DeriveInput',
+              ('the macro hands back its input untouched under `' + ' && '.join((('!' if f_.get('neg') else '') + vt.show(f_.get('c'))[:70]) for f_ in bad_raw[0][1]) + '` — for a struct/enum/union that takes this exit the #[typeshare(..)] helper attributes on members are not stripped and rustc rejects them (the only pass-through allowed is "does not parse as DeriveInput")') if bad_raw else 'for items that are not struct/enum/union (type aliases, consts, fns) the macro no longer returns the untouched input', {'file': t['file'], 'line': (bad_raw[0][2] if bad_raw else t['line'])})
+    rep.check(bool(emitted) and not other, 'Y2', 'derive-input:same-item', 'output = token stream of the parsed item', f"the macro emits `{vt.show(other[0][0])[:80] if other else '?'}` for struct/enum/union inputs", tsite)
     strip_calls = [c for c in t['calls'] if c.get('f') == 'strip_configuration_attribute']
     rep.check(len(strip_calls) == 1, 'Y2', 'strip-called-once', 'strip_configuration_attribute(&mut item)', 'strip_configuration_attribute is not applied exactly once to the parsed item', tsite)
     # Y3 position coverage, by provenance: in the inlined view of strip_configuration_attribute (every helper except the
